@@ -441,8 +441,7 @@ def main(argv):
         if not quick:
             plan.append(("memcheck/avx2", ["valgrind", "-q", "--tool=memcheck", "--error-limit=no", "--leak-check=no", "--num-callers=20"], build("avx2"), None, 0.1, None))
         tasks = [(s, NCPU, a.seed, plan, S, frost, lms, lms_setup, nbyte // NCPU + 1) for s in range(NCPU)]
-        with mp.Pool(NCPU) as pool:
-            results = pool.map(worker, tasks, chunksize=1)
+        results = pmap(worker, tasks, NCPU)
         san = {}
         for r in results:
             if "fatal" in r:
